@@ -160,6 +160,9 @@ func Gen(t *rapid.T, b Bias) Case {
 		default:
 			c.Call.Ctx = "background"
 		}
+		if c.Call.Ctx != "background" && rapid.IntRange(0, 3).Draw(t, "ctxCause") == 0 {
+			c.Call.Cause = true // the context ends with a cause of the caller's own
+		}
 	}
 	// script: answers in a generated arrival order, a cancel at a generated position
 	var steps []Step
